@@ -1,11 +1,11 @@
 (* Memfs/RefineHistory.v — C01 for whole histories: a reference filesystem that works on the flat tree alone (resolving its
    own path arguments against the tree's working directory) and the theorem that, from every well-formed kind-sound state,
-   ANY history of the calls it covers - mkfile, mkdir_p, mkdir_m, write_all, write_lines, append_all, append_line, append_lines, read_all, read_lines, remove, remove_all (off the root), symlink, readlink, readlink_abs, set_cwd, cwd, abs, chown without follow, exists / is_dir / is_file / is_symlink / is_symlink_dir / is_exec / is_readonly, mode / owner / uid / gid - gives, call by call,
+   ANY history of the calls it covers - mkfile, mkdir_p, mkdir_m, write_all, write_lines, append_all, append_line, append_lines, read_all, read_lines, remove, remove_all (off the root), symlink, readlink, readlink_abs, move_p, set_cwd, cwd, abs, chown without follow, exists / is_dir / is_file / is_symlink / is_symlink_dir / is_symlink_file / is_exec / is_readonly, mode / owner / uid / gid - gives, call by call,
    exactly the reference's value or error kind, and ends in exactly the reference's tree. *)
 From stdpp Require Import gmap.
 From Coq Require Import NArith.
 From RV Require Import Base.Str Base.Utf8 Base.PathLex Path.Helpers Path.Expand Path.Abs Memfs.State Memfs.Ops Memfs.Walk Memfs.WalkOps Memfs.Step
-  Memfs.Wf Memfs.WfMore Memfs.WfMove Memfs.Spec Memfs.Refine Memfs.RefineMore Memfs.RefineChown Memfs.Kinds Memfs.RemoveAll Memfs.LinkFacts
+  Memfs.Wf Memfs.WfMore Memfs.WfMove Memfs.Spec Memfs.Refine Memfs.RefineMore Memfs.RefineChown Memfs.RefineMove Memfs.ContentFacts Memfs.Kinds Memfs.RemoveAll Memfs.LinkFacts
   Macros.Asserts.
 
 Definition resolve_t (env : envmap) (t : tree) (s : list N) : mres rpath :=
@@ -41,6 +41,7 @@ Definition spec_step (env : envmap) (t : tree) (o : op) : option (tree * result)
   | OIsSymlink s => Some (t, match resolve_t env t s with inr _ => inl (VBool false) | inl p => inl (VBool (spec_is_symlink t p)) end)
   | OAbs s => Some (t, match resolve_t env t s with inl p => inl (VPath (render_rpath p)) | inr e => inr e end)
   | OIsSymlinkDir s => Some (t, node_bool env t s (fun n => is_link_node n && n_tdir n))
+  | OIsSymlinkFile s => Some (t, node_bool env t s (fun n => is_link_node n && negb (n_tdir n)))
   | OIsExec s => Some (t, node_bool env t s (fun n => is_exec_mode (n_mode n)))
   | OIsReadonly s => Some (t, node_bool env t s (fun n => is_readonly_mode (n_mode n)))
   | OMode s => Some (t, node_query env t s (fun n => inl (VNum (n_mode n))))
@@ -129,6 +130,7 @@ Definition spec_step (env : envmap) (t : tree) (o : op) : option (tree * result)
                     end
                 end
             end)
+  | OMoveP s d => Some (let '(t', r) := spec_move env t s d in (t', as_unit r))
   | OChown s co => if co_follow co then None else
                    match resolve_t env t s with
                    | inr e => Some (t, inr e)
@@ -197,6 +199,10 @@ Proof.
     apply (query_bool_spec env m s _ spec_is_symlink). intros p. destruct (queries_refine m p HK) as (_ & _ & _ & H). exact H.
   - (* is_symlink_dir *) injection Hs as <- <-. exists m. split; [|done]. f_equal. f_equal. apply query_bool_node.
     intros e d. unfold is_link_node, node_of, kind_of_entry. cbn. destruct (e_link e), (e_dir e); done.
+  - (* is_symlink_file *) injection Hs as <- <-. exists m. split; [|done]. f_equal. f_equal.
+    unfold query_bool, node_bool. rewrite resolve_abs. destruct (resolve_t env (abs m) s) as [p|e]; [|done].
+    rewrite lookup_abs. destruct (m_ents m !! p) as [x|] eqn:Hx; cbn; [|done]. pose proof (HK _ _ Hx) as Hk. unfold kind_ok in Hk.
+    unfold is_link_node, node_of, kind_of_entry. cbn. destruct (e_link x), (e_dir x), (e_file x); done.
   - (* is_exec *) injection Hs as <- <-. exists m. split; [|done]. f_equal. f_equal. by apply query_bool_node.
   - (* is_readonly *) injection Hs as <- <-. exists m. split; [|done]. f_equal. f_equal. by apply query_bool_node.
   - (* mode *) injection Hs as <- <-. exists m. split; [|done]. f_equal. f_equal. by apply query_entry_node.
@@ -247,6 +253,11 @@ Proof.
     intros e d. unfold is_link_node, node_of, kind_of_entry. cbn. destruct (e_link e); [done|]. by destruct (e_dir e).
   - (* readlink_abs *) injection Hs as <- <-. exists m. split; [|done]. f_equal. f_equal. apply query_entry_node.
     intros e d. unfold is_link_node, node_of, kind_of_entry. cbn. destruct (e_link e); [done|]. by destruct (e_dir e).
+  - (* move_p *) injection Hs as Hs.
+    pose proof (move_op_terminates env m s d HW) as Hterm. pose proof (step_no_panic env m (OMoveP s d)) as Hnp. cbn [step] in Hnp.
+    destruct (move_op env m s d) as [[m1 r1]| |] eqn:Em; [|done|done].
+    destruct (move_refines env m s d m1 r1 HW Em) as [Ha Hr]. destruct (spec_move env (abs m) s d) as [t1 rr]. cbn [fst snd] in *. subst t1 rr.
+    injection Hs as <- <-. exists m1. split; [|done]. by destruct r1.
   - (* chown *) destruct (co_follow o) eqn:Hnf; [discriminate|]. rewrite <- resolve_abs in Hs.
     destruct (resolve env m s) as [p|e] eqn:E; [|injection Hs as <- <-; exists m; unfold chown_op; by rewrite E].
     rewrite lookup_abs in Hs. destruct (m_ents m !! p) as [x|] eqn:Hx; cbn in Hs; injection Hs as <- <-.
